@@ -215,12 +215,15 @@ func panicClass(p any) string {
 type runObs struct {
 	err                  string
 	numErr, strErr, bErr string
+	nsErr                string // GetNodeSetResult, asked after a failed run only
 	panicked             any
 	hit                  bool
 	calls                int
 }
 
-func runOn(m *xpath.Machine, t *mock.Tree, faults []int) (o runObs) { return runOnDebug(m, t, faults, false) }
+func runOn(m *xpath.Machine, t *mock.Tree, faults []int) (o runObs) {
+	return runOnDebug(m, t, faults, false)
+}
 
 // runOnDebug: the same run with the context's debug listing switched on or off; the listing is a
 // diagnostic aid and must not change value or error.
@@ -259,6 +262,14 @@ func runOnDebug(m *xpath.Machine, t *mock.Tree, faults []int, debug bool) (o run
 		if _, e := res.GetBoolResult(); e != nil {
 			o.bErr = e.Error()
 		}
+		if o.err != "" {
+			// (the node-set accessor too puts the run error first; on a successful run it is only
+			// meaningful for node-set values and is not asked)
+			o.nsErr = "(no error)"
+			if _, e := res.GetNodeSetResult(); e != nil {
+				o.nsErr = e.Error()
+			}
+		}
 	}()
 	o.hit = verifrt.HorizonHit
 	verifrt.SetHorizon(0)
@@ -279,11 +290,11 @@ var kindTree = func() *mock.Tree {
 	t := mock.NewTree()
 	ds := func(d ...xpath.Datum) xpath.Datum { return xpath.NewDatumSliceDatum(d) }
 	t.ByName = map[string]xpath.Datum{
-		"a": ds(xpath.NewLiteralDatum("x"), xpath.NewLiteralDatum("y")),
-		"d": ds(xpath.NewLiteralDatum("y"), xpath.NewLiteralDatum("z")),
-		"i": ds(xpath.NewNumDatum(1), xpath.NewNumDatum(2), xpath.NewNumDatum(3)),
-		"e": ds(),
-		"v": xpath.NewNumDatum(7),
+		"a":  ds(xpath.NewLiteralDatum("x"), xpath.NewLiteralDatum("y")),
+		"d":  ds(xpath.NewLiteralDatum("y"), xpath.NewLiteralDatum("z")),
+		"i":  ds(xpath.NewNumDatum(1), xpath.NewNumDatum(2), xpath.NewNumDatum(3)),
+		"e":  ds(),
+		"v":  xpath.NewNumDatum(7),
 		"aa": xpath.NewBoolDatum(true),
 		"ad": xpath.NewLiteralDatum("lit"),
 	}
@@ -313,8 +324,8 @@ func checkRunTree(idTree *mock.Tree, grammar, src string, m *xpath.Machine, faul
 		}
 	} else {
 		outcome = "error"
-		if o.numErr != o.err || o.strErr != o.err || o.bErr != o.err {
-			vs = append(vs, viol("accessor-hides-run-error", grammar, src, fmt.Sprintf("run error %q but accessors give %q %q %q", o.err, o.numErr, o.strErr, o.bErr), faults))
+		if o.numErr != o.err || o.strErr != o.err || o.bErr != o.err || o.nsErr != o.err {
+			vs = append(vs, viol("accessor-hides-run-error", grammar, src, fmt.Sprintf("run error %q but accessors give %q %q %q, node-set accessor %q", o.err, o.numErr, o.strErr, o.bErr, o.nsErr), faults))
 		}
 	}
 	if od := runOnDebug(m, idTree, faults, true); od.hit || fmt.Sprint(od.panicked) != fmt.Sprint(o.panicked) || od.err != o.err || od.numErr != o.numErr || od.strErr != o.strErr || od.bErr != o.bErr {
